@@ -19,6 +19,7 @@ import (
 	"path/filepath"
 	"regexp"
 	"runtime"
+	"runtime/debug"
 	"runtime/pprof"
 	"sort"
 	"strconv"
@@ -66,6 +67,9 @@ type Property struct {
 	Run func(tier string, i int, deadline time.Time) Result
 	// Replay re-executes a recorded violation of case i and returns a trace and the oracle's verdict.
 	Replay func(tier string, i int, replay json.RawMessage) (trace string, verdict string, err error)
+	// PanicIsViolation: a Go panic escaping Run comes from the code under test (sequential E2 drivers call
+	// it directly) and is reported as a violation of the running case instead of an internal error.
+	PanicIsViolation bool
 	// CrashIsViolation: a worker that dies on a case is a violation of that case (unsafe code under test).
 	CrashIsViolation bool
 	// Extra adds property-specific keys to coverage after the merge (e.g. validation counts).
@@ -173,7 +177,7 @@ func Main(props ...Property) {
 			defer pprof.StopCPUProfile()
 		}
 		t0 := time.Now()
-		r := p.Run(*tier, *one, t0.Add(budget()))
+		r := runCase(p, *tier, *one, t0.Add(budget()))
 		r.Sample, r.Counters = nil, nil
 		b, _ := json.Marshal(r)
 		fmt.Printf("%s\n%.2fs\n", b, time.Since(t0).Seconds())
@@ -202,12 +206,28 @@ func runWorker(p *Property, tier string, budget time.Duration) {
 			continue
 		}
 		t0 := time.Now()
-		r := p.Run(tier, i, t0.Add(budget))
+		r := runCase(p, tier, i, t0.Add(budget))
 		r.Index = i
 		r.WallMs = time.Since(t0).Milliseconds()
 		enc.Encode(r)
 		out.Flush()
 	}
+}
+
+func runCase(p *Property, tier string, i int, deadline time.Time) (r Result) {
+	if p.PanicIsViolation {
+		defer func() {
+			if e := recover(); e != nil {
+				_, name := p.Cases(tier)
+				stack := string(debug.Stack())
+				if len(stack) > 3000 {
+					stack = stack[:3000]
+				}
+				r = Result{Case: name(i), Viols: []Viol{{Sig: p.ID + "/panic", Msg: fmt.Sprintf("panic in the code under test: %v\n%s", e, stack), Replay: map[string]any{"case": name(i)}}}}
+			}
+		}()
+	}
+	return p.Run(tier, i, deadline)
 }
 
 func master(p *Property, tier string, n int, name func(int) string, only string, procs int, noEvid, verbose bool) int {
